@@ -28,6 +28,9 @@
 (*   tr   upper triangular, n = 3 entries {-1,0,1,2}; n = 4 diagonal       *)
 (*        {1,2,-1} (unit and non-unit), strict upper part {-1,0,1}         *)
 (*   spd  A = L L' for integer lower triangular L with positive diagonal   *)
+(*   gr   GRADED matrices A = B0 + E: B0 a small integer matrix, E tiny     *)
+(*        entries m * 2^e (e <= -40) in one column, printed symbolically    *)
+(*        (mantissa, exponent); see the section "graded family"             *)
 (*   sym  symmetric (mostly INDEFINITE) matrices: the tr members mirrored  *)
 (*        into the lower triangle (inputs of the Cholesky option variants) *)
 (***************************************************************************)
@@ -194,6 +197,68 @@ SpdL(n, idx) ==
              ELSE off[Digit(idx \div Pow(2, nd), b, LoPos(n, i, j)) + 1]])])
 SpdCount(n) == IF n = 1 THEN 3 ELSE IF n = 2 THEN 4 * 4 ELSE Pow(2, n) * Pow(3, (n * (n - 1)) \div 2)
 
+(* ------------------------------------------------------------ graded family *)
+(* Magnitudes of 2^-40 cannot be held in 32-bit rationals, so a graded matrix
+   is printed symbolically: mantissa matrix m and exponent matrix e,
+   A[i][j] = m[i][j] * 2^e[i][j] (exact in binary floating point).
+   Structure (canonical, before a row permutation pi is applied): columns
+   before the graded column g are unit columns, the graded column holds in the
+   rows g..n exactly one entry of ordinary size ("big", 1 or 2) and tiny entries
+   mant * 2^-(40+3t) elsewhere, the columns after g are ordinary integers.  All
+   row orders are enumerated, so that in the pivot search of column g the
+   diagonal candidate, the big entry and a larger tiny entry occur in every
+   order (a search that keeps the FIRST or the LAST candidate exceeding the
+   diagonal instead of the largest one picks a tiny pivot).
+   B0 is A with the tiny entries replaced by 0, E = A - B0.  The contract for
+   the graded family rests on the perturbation lemma (Neumann series): if
+   delta = ||B0^-1||_1 ||E||_1 < 1 then A is nonsingular,
+   ||A^-1 - B0^-1||_1 <= ||B0^-1||_1^2 ||E||_1 / (1 - delta) and
+   kappa(A) <= kappa(B0) (1 + delta) / (1 - delta).  TLC verifies the hypothesis
+   in the strong form delta <= 2^-20 (GrHolds); then A^-1 equals the exact
+   Inv(B0) up to slack = 2 ||B0^-1||^2 ||E|| (far below the tolerance) and
+   kappa(A) <= 2 kappa(B0). *)
+GrMants == <<3, -1, 5>>
+GrFill(i, j, dv) == ((i * (dv + 2) + j * 3 + dv * i * j) % 5) - 2
+GrParams(n, idx) ==
+  LET np == NPerm(n)
+      r1 == idx \div np
+      g == (r1 % 2) + 1
+      r2 == r1 \div 2
+      k == n - g + 1
+      r3 == r2 \div 4
+      r4 == r3 \div 2
+      r5 == r4 \div 3
+  IN [pi |-> PermK(n, (idx % np) + 1), g |-> g, k |-> k, bigpos |-> ((r2 % 4) % k) + 1,
+      mv |-> r3 % 2, dv |-> r4 % 3, eo |-> r5 % 2]
+GrCount(n) == NPerm(n) * 96
+(* canonical entry (i, j) as [m, e] *)
+GrEntry(n, q, i, j) ==
+  IF j < q.g THEN [m |-> IF i = j THEN 1 ELSE 0, e |-> 0]
+  ELSE IF j > q.g THEN [m |-> GrFill(i, j, q.dv), e |-> 0]
+  ELSE IF i < q.g THEN [m |-> 0, e |-> 0]
+  ELSE LET pos == i - q.g + 1 IN
+       IF pos = q.bigpos THEN [m |-> 1 + q.mv, e |-> 0]
+       ELSE LET t == IF pos < q.bigpos THEN pos - 1 ELSE pos - 2       \* rank among the tiny rows, 0-based
+                tt == IF q.eo = 0 THEN t ELSE (q.k - 2) - t
+            IN [m |-> IF q.mv = 0 THEN 1 ELSE GrMants[t + 1], e |-> -(40 + 3 * tt)]
+GrSym(n, idx) ==
+  LET q == GrParams(n, idx)
+  IN TLCEval([i \in 1..n |-> TLCEval([j \in 1..n |-> GrEntry(n, q, q.pi[i], j)])])
+GrB0(n, idx) ==
+  LET S == GrSym(n, idx)
+  IN TLCEval([i \in 1..n |-> TLCEval([j \in 1..n |-> IF S[i][j].e = 0 THEN S[i][j].m ELSE 0])])
+GrESum(n, idx) ==
+  LET S == GrSym(n, idx)
+  IN SumInts(TLCEval([i \in 1..n |-> SumInts(TLCEval([j \in 1..n |-> IF S[i][j].e = 0 THEN 0 ELSE Abs(S[i][j].m)]))]))
+GrEMax == -40
+(* delta = ||B0^-1||_1 ||E||_1 <= (Norm1(adj)/|det|) * esum * 2^-40 <= 2^-20 *)
+GrHolds(n, idx) ==
+  LET B == GrB0(n, idx)
+      det == Det(B)
+  IN /\ det # 0
+     /\ Norm1(Adj(B)) * GrESum(n, idx) <= Abs(det) * Pow(2, 20)
+     /\ Norm1(B) * Norm1(Adj(B)) <= 200 * Abs(det)                 \* kappa(B0) <= 200
+
 MatOf(c) ==
   CASE c.fam = "g"   -> GenMat(c.n, c.idx)
     [] c.fam = "pd"  -> PdMat(c.idx)
@@ -201,6 +266,7 @@ MatOf(c) ==
     [] c.fam = "q4"  -> Q4Mat(c.idx)
     [] c.fam = "tr"  -> TrMat(c.n, c.idx)
     [] c.fam = "sym" -> SymMat(c.n, c.idx)
+    [] c.fam = "gr"  -> GrB0(c.n, c.idx)
     [] c.fam = "spd" -> LET L == SpdL(c.n, c.idx) IN MulII(L, Transpose(L))
 
 (* seeded slices *)
@@ -219,6 +285,8 @@ CasesOfBlock(b) ==
   \cup CasesOfFam("p4", 4, P4Count, 1, b) \cup CasesOfFam("q4", 4, P4Count, 1, b)
   \cup CasesOfFam("tr", 3, TrCount(3), Mod4 \div 8, b) \cup CasesOfFam("tr", 4, TrCount(4), Mod4, b)
   \cup CasesOfFam("sym", 3, TrCount(3), Mod4 \div 8, b) \cup CasesOfFam("sym", 4, TrCount(4), Mod4, b)
+  \cup {c \in CasesOfFam("gr", 3, GrCount(3), 1, b) \cup CasesOfFam("gr", 4, GrCount(4), Mod4 \div 16, b) :
+          GrHolds(c.n, c.idx)}
   \cup CasesOfFam("spd", 1, SpdCount(1), 1, b) \cup CasesOfFam("spd", 2, SpdCount(2), 1, b)
   \cup CasesOfFam("spd", 3, SpdCount(3), 1, b) \cup CasesOfFam("spd", 4, SpdCount(4), Mod4 \div 4, b)
 
@@ -254,7 +322,22 @@ SubRecord(A, L, code) ==
       kap |-> IF det = 0 THEN <<0, 1>> ELSE R2(KappaFrom(B, adj, det)),
       sol |-> IF det = 0 THEN <<>> ELSE RV2(SolveFrom(B, SubV(Ramp(n), mask), det))]
 
+GrRecord(c) ==
+  LET S == GrSym(c.n, c.idx)
+      n == c.n
+      q == GrParams(n, c.idx)
+      B == GrB0(n, c.idx)
+      det == Det(B)
+      adj == Adj(B)
+  IN [k |-> "gmat", fam |-> "gr", n |-> n, idx |-> c.idx, g |-> q.g,
+      m |-> TLCEval([i \in 1..n |-> TLCEval([j \in 1..n |-> S[i][j].m])]),
+      e |-> TLCEval([i \in 1..n |-> TLCEval([j \in 1..n |-> S[i][j].e])]),
+      b0 |-> B, det |-> det, inv |-> RM2(InvFrom(adj, det)), kap |-> R2(KappaFrom(B, adj, det)),
+      sol |-> <<RV2(SolveFrom(B, Ones(n), det)), RV2(SolveFrom(B, Ramp(n), det))>>,
+      ninv |-> R2(Rat(Norm1(adj), Abs(det))), esum |-> GrESum(n, c.idx), emax |-> GrEMax]
+
 CaseRecord(c) ==
+  IF c.fam = "gr" THEN GrRecord(c) ELSE
   LET A == MatOf(c)
       n == c.n
       det == Det(A)
@@ -294,6 +377,7 @@ ContractHolds(c) ==
                           /\ det = Det(SpdL(n, c.idx)) * Det(SpdL(n, c.idx)))
      /\ c.fam = "tr" => IsUpperTri(A)
      /\ c.fam = "sym" => IsSymmetric(A)
+     /\ c.fam = "gr" => (GrHolds(n, c.idx) /\ GrESum(n, c.idx) > 0)
 
 Root == [fam |-> "root", n |-> 0, idx |-> 0]
 Block == [fam |-> "blk", n |-> 0, idx |-> 0]
